@@ -19,7 +19,7 @@ EXTENDS Integers, Sequences, TLC, Json
 CallerSkipFrameCount == 2
 ContextSkip == 2          \* contextCallerSkipFrameCount (go >= 1.12)
 
-Mechs == {"ev", "evk", "ctx", "ctxcount", "ctxpinned", "evskipframe", "evskipchain", "global"}
+Mechs == {"ev", "evk", "evkglobal", "ctx", "ctxcount", "ctxpinned", "evskipframe", "evskipchain", "global"}
 Entries == {"Trace", "Debug", "Info", "Warn", "Error", "WithLevel", "Err", "Log", "Panic",
             "Print", "Printf", "Println", "Write", "log.Info", "log.Error", "log.Log", "log.WithLevel", "log.Err", "log.Print", "log.Printf",
             \* argument shapes of the printf-style entry points: no arguments at all / a constant format (a fast path is a frame)
@@ -33,13 +33,15 @@ SelfFinishing(e) == e \in {"Print", "Printf", "Println", "Write", "log.Print", "
 
 \* internal frames between runtime.Caller and the user's statement u0 (innermost first)
 Internal(mech, entry) ==
-  IF mech \in {"ev", "evk"} THEN <<"Event.caller", "Event.Caller">>
+  IF mech \in {"ev", "evk", "evkglobal"} THEN <<"Event.caller", "Event.Caller">>
   ELSE <<"Event.caller", "callerHook.Run", "Event.msg", "finalizer">> \o (IF SelfFinishing(entry) THEN <<"Print|Write">> ELSE <<>>)
 \* what the code passes to runtime.Caller: skip + e.skipFrame
 Skip(mech, entry, k) ==
   LET selfskip == IF SelfFinishing(entry) THEN 1 ELSE 0 IN      \* Print*/Write add CallerSkipFrame(1)
   CASE mech = "ev" -> CallerSkipFrameCount
     [] mech = "evk" -> k + CallerSkipFrameCount                                       \* Event.Caller(k)
+    \* Event.Caller(k-1) while the global CallerSkipFrameCount is 3: the explicit argument is ADDED to the global
+    [] mech = "evkglobal" -> (k - 1) + (CallerSkipFrameCount + 1)
     [] mech = "ctx" -> CallerSkipFrameCount + ContextSkip + selfskip                 \* Context.Caller()
     [] mech = "ctxcount" -> (2 + k) + ContextSkip + selfskip                         \* CallerWithSkipFrameCount(2+k)
     \* CallerWithSkipFrameCount(2+k) PINS its argument: built while the global CallerSkipFrameCount happens to equal 2+k,
@@ -53,14 +55,14 @@ Wanted(mech, k) == IF mech \in {"ev", "ctx"} THEN 0 ELSE k
 Stack(mech, entry, depth) == Internal(mech, entry) \o [i \in 1..(depth + 1) |-> "u" \o ToString(i - 1)]
 Selected(mech, entry, k, depth) == Stack(mech, entry, depth)[Skip(mech, entry, k) + 1]
 \* event-level mechanisms need an *Event: not for the self-finishing entries
-Valid(mech, entry) == ~(mech \in {"ev", "evk", "evskipframe", "evskipchain"} /\ SelfFinishing(entry))
+Valid(mech, entry) == ~(mech \in {"ev", "evk", "evkglobal", "evskipframe", "evskipchain"} /\ SelfFinishing(entry))
 
 VARIABLES done
 Init == done = FALSE
 Next == ~done /\ done' = TRUE
 Spec == Init /\ [][Next]_done
 Combos == {<<m, e, f, o, k>> \in Mechs \X Entries \X Fins \X Others \X Depths : Valid(m, e) /\ (SelfFinishing(e) => f = "Msg")
-                                                                                 /\ (m \in {"ev", "ctx"} => k = 0)}
+                                                                                 /\ (m \in {"ev", "ctx"} => k = 0) /\ (m = "evkglobal" => k >= 1)}
 \* the arithmetic selects the user's site for every combination
 SkipArithmetic == \A c \in Combos : Selected(c[1], c[2], c[5], c[5]) = "u" \o ToString(Wanted(c[1], c[5]))
 Emit == done \/ \A c \in Combos : PrintT("@@COMBO|" \o ToJson([mech |-> c[1], entry |-> c[2], fin |-> c[3], other |-> c[4], k |-> c[5]]))
